@@ -26,7 +26,7 @@ pub fn gen_impl_trait_arbitrary(
     // Generate implementation of `Arbitrary` trait, assuming that inner type implements Arbitrary
     // too.
     let generics_without_bounds = strip_trait_bounds_on_generics(generics);
-    let generics_with_lifetime = add_param(&generics_without_bounds, quote!('nu_arb));
+    let generics_with_lifetime = add_param(generics, quote!('nu_arb));
     let generics_with_bounds = add_bound_to_all_type_params(
         &generics_with_lifetime,
         quote!(::arbitrary::Arbitrary<'nu_arb>),
